@@ -143,5 +143,46 @@ pub fn run(cases_path: &str, report_path: &str, _opts: &[String]) {
             rep.sample(json!({"case": case}));
         }
     }
+    // a wide array: 2100 dictionaries, stored as ordinary objects / as members of one object stream, all named by one array
+    // that is loaded as a typed vector (one load per element, two when the element is a member of an object stream)
+    {
+        let n = 2100u64;
+        let wide = |compressed: bool| -> Vec<u8> {
+            let mut d = Doc::new(b"");
+            let mut e: Vec<(u64, XEntry)> = vec![(0, XEntry::Free { next: 0, gen: 65535 })];
+            let o = d.obj(1, 0, &catalog_body(2));
+            e.push((1, XEntry::InUse { off: o, gen: 0 }));
+            let o = d.obj(2, 0, &empty_pages_body());
+            e.push((2, XEntry::InUse { off: o, gen: 0 }));
+            let refs: Vec<String> = (0..n).map(|k| format!("{} 0 R", 10 + k)).collect();
+            let o = d.obj(3, 0, format!("[{}]", refs.join(" ")).as_bytes());
+            e.push((3, XEntry::InUse { off: o, gen: 0 }));
+            if compressed {
+                let members: Vec<(u64, Vec<u8>)> = (0..n).map(|k| (10 + k, format!("<< /K {} >>", k).into_bytes())).collect();
+                let o = d.objstm(4, &members, Filter::Flate, " ", b" ", false, "");
+                e.push((4, XEntry::InUse { off: o, gen: 0 }));
+                for k in 0..n { e.push((10 + k, XEntry::Compressed { container: 4, idx: k as usize })); }
+            } else {
+                for k in 0..n { let o = d.obj(10 + k, 0, format!("<< /K {} >>", k).as_bytes()); e.push((10 + k, XEntry::InUse { off: o, gen: 0 })); }
+            }
+            d.xref_stream(5, &e, 10 + n, [1, 3, 2], "/Root 1 0 R", None, Split::Min, Filter::Flate);
+            d.buf
+        };
+        let load = |bytes: Vec<u8>, cached: bool| -> String {
+            let go = |r: &dyn Fn() -> pdf::error::Result<usize>| match guarded(r) { Outcome::Done(Ok(n)) => format!("ok:{}", n), Outcome::Done(Err(e)) => format!("err:{}", err_json(&e)), Outcome::Panic(p) => format!("panic:{}", p.sym) };
+            if cached {
+                go(&|| { let f = FileOptions::cached().load(bytes.clone())?; let r = f.resolver(); Ok(r.get::<Vec<pdf::object::MaybeRef<pdf::primitive::Dictionary>>>(pdf::object::Ref::from_id(3))?.len()) })
+            } else {
+                go(&|| { let f = FileOptions::uncached().load(bytes.clone())?; let r = f.resolver(); Ok(r.get::<Vec<pdf::object::MaybeRef<pdf::primitive::Dictionary>>>(pdf::object::Ref::from_id(3))?.len()) })
+            }
+        };
+        for cached in [false, true] {
+            rep.execs += 2;
+            let (a, b) = (load(wide(false), cached), load(wide(true), cached));
+            if a != format!("ok:{}", n) || a != b {
+                rep.fail("wide-array", json!({"case": {"wide_array": n, "cached": cached}, "ordinary": a, "compressed": b}));
+            }
+        }
+    }
     rep.write(report_path);
 }
